@@ -1054,6 +1054,57 @@ theorem C02_idle_handler_is_quiet (p : ProxyS) (m : MuxL) (e : ESock) (hn : Noti
   · intro _; exact up hsr hsb
   · intro h; exact down h a3
 
+/-- **The converse, which is what the scheduler needs:** a handler that has had its callback
+(`Noticed`) and is *not* quiet registers, with the next `select`, a descriptor that is ready — its
+socket for writing (always ready: a pending connect or bytes for the socket), the tunnel for
+writing (bytes for the tunnel, tunnel not paused), or its socket for reading while the endpoint has
+bytes or a close pending — so `select` returns it; and the callback it then gets, with what is
+ready, changes the state (`callback_fixpoint`).  Hence a pass of the loop over handlers that have
+all had their callbacks either finds them all quiet or makes a move that `C02_bounded_work`
+charges against the measure. -/
+theorem C02_unquiet_handler_is_woken (p : ProxyS) (m : MuxL) (e : ESock) (hn : Noticed p) (hse : SE p.sw e)
+    (ht : m.tooFull = false) (hq : ¬ HQ (some p) e) :
+    ((p.wants m).2.1 = true ∨ (p.wants m).2.2 = true ∨
+      ((p.wants m).1 = true ∧ (e.pending ≠ [] ∨ e.eofIn = true))) ∧
+    p.callback m e fullIo ≠ .ok p m e := by
+  refine ⟨?_, fun h => hq (handler_fix_quiet p m e hse ht h)⟩
+  apply Classical.byContradiction
+  intro hno
+  simp only [not_or, not_and] at hno
+  obtain ⟨n1, n2, n3⟩ := hno
+  have w2 : (p.wants m).2.1 = false := by simpa using n1
+  have w3 : (p.wants m).2.2 = false := by simpa using n2
+  cases w1 : (p.wants m).1 with
+  | false =>
+    apply hq
+    apply C02_idle_handler_is_quiet p m e hn _ ht
+    rw [Prod.ext_iff, Prod.ext_iff]
+    exact ⟨w1, w2, w3⟩
+  | true =>
+    have hnr := n3 w1
+    have hp' : e.pending = [] := by
+      cases hpp : e.pending with
+      | nil => rfl
+      | cons a l => exact absurd (by rw [hpp]; exact List.cons_ne_nil _ _) hnr.1
+    have he : e.eofIn = false := by
+      cases hee : e.eofIn with
+      | false => rfl
+      | true => exact absurd hee hnr.2
+    obtain ⟨hc, hbe, hr⟩ := (wants_sockR p m).mp w1
+    have hsb : p.sw.buf = [] := List.isEmpty_iff.mp hbe
+    have hmb : p.mw.buf = [] := by
+      cases hb : p.mw.buf with
+      | nil => rfl
+      | cons a l =>
+        have := (wants_sockW p m).mpr (Or.inr (by rw [hb]; rfl))
+        rw [w2] at this; cases this
+    obtain ⟨⟨⟨s1, s2⟩, _⟩, _, down⟩ := hn
+    apply hq
+    intro q hqq
+    injection hqq with hqq; subst hqq
+    refine ⟨hc, by rw [hsb]; rfl, by rw [hmb]; rfl, fun _ => ⟨hp', he⟩, ?_, fun h => down h hmb, s1, s2⟩
+    intro h; rw [hr] at h; cases h
+
 /-- The loop-level form: after a pass in which every handler of an end got its callback (what
 `runonce` does whenever the tunnel's read file is ready), a handler of that end that asks the next
 `select` for nothing is quiet. -/
